@@ -70,6 +70,10 @@ EXPLANATION += (
     ' Round 6: computed values are not cast to, or stored in place into, the element type of the raw data (R-DTYPE).'
 )
 
+EXPLANATION += (
+    ' Round 7: validation chooses its integer type from the np.round-ed extremes against both bounds (R-ARITH/int-width, rule of C16); gene columns are selected by a name-derived fancy index.'
+)
+
 RULE_TEXT = (
     "one obligation per dominance / typestate / provenance relation named "
     "above")
@@ -101,6 +105,10 @@ def check(ctx):
     check_tiles(ctx, ('validation.utils',), floor=8)
     # settings this property depends on are handed down every call
     # chain, never left to a callee's default (sa/rules/forwarding.py)
+    # negative values survive validation as negative values: the integer
+    # type is chosen from the rounded extremes (rule of C16)
+    from .C16 import check_int_width
+    check_int_width(ctx)
     # computed values are not forced back into the element type of the
     # raw data (sa/rules/idioms.py, R-DTYPE)
     from ..rules.idioms import (check_narrowing_cast,
@@ -504,8 +512,11 @@ def check_columns_by_name(ctx):
                 and len(v.slice.elts) == 2 and isinstance(
                     v.slice.elts[0], ast.Slice):
             sl = backward_slice(m, v.slice.elts[1], r.id)
+            # a fancy index: the array of columns itself, one per
+            # requested name and in the order requested -- not a range
+            # between two of its elements
             ok = sl.has_attr('gene_to_col') and 'selected_genes' in \
-                sl.params
+                sl.params and not isinstance(v.slice.elts[1], ast.Slice)
         ctx.ob(rule, 'CellByGeneMatrix._downsample_genes', m.loc(v), ok,
                'columns are selected through gene_to_col[name] for the '
                'names requested' if ok else
